@@ -987,8 +987,208 @@ fn run_escape_case(case: &str, text: &str) {
     emit(case, &obs, oracle);
 }
 
+
+// ---------------------------------------------------------------------------------------------
+// `L` cases: scripts inside the fragment of the structural model (no command substitutions, arithmetic,
+// here-documents, arrays, tildes, aliases) in NON-canonical surface form - newlines instead of `;`, blank and
+// comment lines, line continuations, optional `(` in patterns - and token-level mutations of them.  The real
+// `Parser::command_line` loop and the model's `parseScript` must agree on every one of them: same number of
+// command lines, same printed form of every line, or a syntax error on both sides.
+
+const L_WORDS: &[&str] = &["a", "b1", "echo", "'q x'", "\"d $x\"", "$x", "${y:-z}", "${#v}", "\\;", "-n", "foo", "2", "x", "a\\\nb", "\"\"", "$1", "${z%.*}", "c\\ d", "in", "do"];
+const L_REDIRS: &[&str] = &[">f", "2>&1", "<in", ">>o", ">|c", "<>rw", "<&3", "> g", "2> e", "<<<s"];
+const L_TOKENS: &[&str] = &["if", "then", "elif", "else", "fi", "while", "until", "do", "done", "for", "in", "case", "esac", "{", "}", "!", ";", "&", "|", "&&", "||", "(", ")", ";;", ";&", ";|", ";;&", "\n", ">", "<", "x=1", "a", "function", "[[", "select", "#c", "2>", "1"];
+
+struct LG {
+    rng: Rng,
+}
+
+impl LG {
+    fn word(&mut self) -> String {
+        self.rng.pick(L_WORDS).to_string()
+    }
+    fn simple(&mut self) -> String {
+        let mut parts: Vec<String> = vec![];
+        if self.rng.chance(1, 5) {
+            parts.push(self.rng.pick(&["x=1", "a=b c=", "v='1 2'", "n=$x"]).to_string());
+        }
+        if self.rng.chance(1, 8) {
+            parts.push(self.rng.pick(L_REDIRS).to_string());
+        }
+        let first = *self.rng.pick(&["a", "echo", "foo", "b1", ":", "x", "./r", "'q'", "$c"]);
+        parts.push(first.to_string());
+        for _ in 0..self.rng.below(3) {
+            let w = self.word();
+            parts.push(w);
+        }
+        if self.rng.chance(1, 4) {
+            parts.push(self.rng.pick(L_REDIRS).to_string());
+        }
+        parts.join(if self.rng.chance(1, 10) { "  " } else { " " })
+    }
+    /// a separator inside a compound list (never at the top level: a newline there ends the command line)
+    fn sep(&mut self) -> &'static str {
+        *self.rng.pick(&["; ", "; ", ";", "\n", " ;\n", "\n\n", "\n# c\n", " \\\n; ", "& ", "&\n"])
+    }
+    fn end(&mut self) -> &'static str {
+        *self.rng.pick(&["; ", "; ", "\n", " ;\n", "\n \n", "& ", " # c\n"])
+    }
+    fn list(&mut self, depth: u32) -> String {
+        let n = 1 + self.rng.below(3);
+        let mut out = String::new();
+        for i in 0..n {
+            if i > 0 {
+                out.push_str(self.sep());
+            }
+            out.push_str(&self.and_or(depth));
+        }
+        out
+    }
+    fn and_or(&mut self, depth: u32) -> String {
+        let mut out = self.pipeline(depth);
+        for _ in 0..self.rng.below(3).saturating_sub(1) {
+            out.push_str(*self.rng.pick(&[" && ", " || ", "&&", " ||\n", " &&\n\n "]));
+            out.push_str(&self.pipeline(depth));
+        }
+        out
+    }
+    fn pipeline(&mut self, depth: u32) -> String {
+        let mut out = String::new();
+        if self.rng.chance(1, 6) {
+            out.push_str("! ");
+        }
+        out.push_str(&self.command(depth));
+        for _ in 0..self.rng.below(3).saturating_sub(1) {
+            out.push_str(*self.rng.pick(&[" | ", "|", " |\n", " | \\\n"]));
+            out.push_str(&self.command(depth));
+        }
+        out
+    }
+    fn command(&mut self, depth: u32) -> String {
+        if depth == 0 || self.rng.chance(1, 2) {
+            return self.simple();
+        }
+        let d = depth - 1;
+        let body = match self.rng.below(8) {
+            0 => format!("{{ {}{}}}", self.list(d), self.end()),
+            1 => format!("({})", self.list(d)),
+            2 => {
+                let mut s = format!("if {}{}then {}{}", self.list(d), self.end(), self.list(d), self.end());
+                for _ in 0..self.rng.below(3).saturating_sub(1) {
+                    s.push_str(&format!("elif {}{}then {}{}", self.list(d), self.end(), self.list(d), self.end()));
+                }
+                if self.rng.chance(1, 2) {
+                    s.push_str(&format!("else {}{}", self.list(d), self.end()));
+                }
+                s + "fi"
+            }
+            3 => format!("{} {}{}do {}{}done", if self.rng.chance(1, 2) { "while" } else { "until" }, self.list(d), self.end(), self.list(d), self.end()),
+            4 => {
+                let vals = match self.rng.below(4) {
+                    0 => "; ".to_string(),
+                    1 => " ".to_string(),
+                    2 => "\n".to_string(),
+                    _ => {
+                        let n = self.rng.below(3);
+                        let ws: Vec<String> = (0..n).map(|_| self.word()).collect();
+                        format!("{}in {}{}", *self.rng.pick(&[" ", "\n", " \n "]), ws.join(" "), *self.rng.pick(&["; ", "\n", " ;\n"]))
+                    }
+                };
+                format!("for {}{}do {}{}done", *self.rng.pick(&["i", "x", "v_1"]), vals, self.list(d), self.end())
+            }
+            5 => {
+                let mut s = format!("case {}{}in{}", self.word(), *self.rng.pick(&[" ", "\n", " \n"]), *self.rng.pick(&[" ", "\n"]));
+                let n = self.rng.below(3);
+                for i in 0..n {
+                    let pats = if self.rng.chance(1, 3) { format!("{}|{}", self.word(), self.word()) } else { self.word() };
+                    let open = if self.rng.chance(1, 2) { "(" } else { "" };
+                    let body = if self.rng.chance(1, 4) { String::new() } else { format!(" {}", self.list(d)) };
+                    let last = i + 1 == n;
+                    let term = if last && self.rng.chance(1, 3) { "\n" } else { *self.rng.pick(&[";; ", " ;;\n", ";& ", ";| ", ";;& ", "\n;;\n"]) };
+                    s.push_str(&format!("{open}{pats}){body}{term}"));
+                }
+                s + "esac"
+            }
+            6 => format!("{}(){}{}", *self.rng.pick(&["f", "g1", "foo"]), *self.rng.pick(&[" ", "", "\n", " \n"]), {
+                let inner = self.list(d);
+                if self.rng.chance(1, 2) { format!("{{ {}{}}}", inner, self.end()) } else { format!("({inner})") }
+            }),
+            _ => format!("{{ {}{}}}", self.list(d), self.end()),
+        };
+        if self.rng.chance(1, 5) {
+            format!("{} {}", body, self.rng.pick(L_REDIRS))
+        } else {
+            body
+        }
+    }
+    fn script(&mut self) -> String {
+        let n = 1 + self.rng.below(3);
+        let mut out = String::new();
+        for _ in 0..n {
+            let depth = self.rng.below(4) as u32;
+            out.push_str(&self.list(depth));
+            out.push_str(*self.rng.pick(&["\n", "\n", ";\n", "&\n", " # x\n", "\n\n", ""]));
+        }
+        out
+    }
+    /// token-level mutation that stays inside the alphabet of the fragment
+    fn mutate(&mut self, src: &str) -> String {
+        let mut toks: Vec<String> = src.split(' ').map(|s| s.to_string()).collect();
+        for _ in 0..1 + self.rng.below(2) {
+            if toks.is_empty() {
+                break;
+            }
+            let i = self.rng.below(toks.len());
+            match self.rng.below(5) {
+                0 => {
+                    toks.remove(i);
+                }
+                1 => {
+                    let t = toks[i].clone();
+                    toks.insert(i, t);
+                }
+                2 => {
+                    let j = self.rng.below(toks.len());
+                    toks.swap(i, j);
+                }
+                3 => {
+                    toks.truncate(i);
+                }
+                _ => {
+                    toks.insert(i, self.rng.pick(L_TOKENS).to_string());
+                }
+            }
+        }
+        toks.join(" ")
+    }
+}
+
+/// `L <hex source>`: the `command_line` loop on the source; observation `lines <n> <hex of the printed lists,
+/// one per line>` or `syntax-error`
+fn run_line_case(case: &str, src: &str) {
+    let obs = guarded(|| match parse_lines(src, false) {
+        Ok(ls) => {
+            let text: Vec<String> = ls.iter().map(|l| l.to_string()).collect();
+            format!("lines {} {}", ls.len(), enc_str(&text.join("\n")))
+        }
+        Err(e) => {
+            exercise_error(&e);
+            "syntax-error".to_string()
+        }
+    });
+    let oracle = if obs.starts_with("PANIC") { "FAIL:panic" } else { "-" };
+    emit(case, &obs, oracle);
+}
+
 fn run_case(r: &mut Runner, case: &str) {
     let case = case.trim();
+    if let Some(rest) = case.strip_prefix("L ") {
+        match dec_str(rest.trim()) {
+            Some(src) => run_line_case(case, &src),
+            None => emit(case, "bad-case", "-"),
+        }
+        return;
+    }
     if let Some(rest) = case.strip_prefix("X ") {
         match dec_str(rest.trim()) {
             Some(text) => run_escape_case(case, &text),
@@ -2591,6 +2791,22 @@ fn main() {
                 run_raw(&mut r, &ctx.replace('@', t), true);
             }
         }
+    }
+    // 7. command lines: scripts of the structural model's fragment in free surface form, and mutations
+    let n_lines = if o.thorough() { 120_000 } else { 1_500 };
+    let mut lrng = Rng::new(o.seed ^ 0x11E5_C06);
+    for k in 0..n_lines {
+        let s = lrng.next();
+        if !mine(&mut idx) {
+            continue;
+        }
+        let mut g = LG { rng: Rng::new(s) };
+        let mut src = g.script();
+        if k % 5 >= 3 {
+            src = g.mutate(&src);
+        }
+        let case = format!("L {}", enc_str(&src));
+        run_line_case(&case, &src);
     }
     // 5. what the shell shows to the user: `typeset -fp` and the job table
     let n_shell = if o.thorough() { 4_000 } else { 300 };
